@@ -391,10 +391,24 @@ def run(check):
     for h, _, s in handlers_of(cx, EV + ev):
       if h is None:
         continue
+      # a handler produced by a factory call  F(<flag>, <value>)  closes over F's parameters
+      closure = {}
+      site_arg = s['call'].args[0] if s['call'].args else None
+      if h.parent_fn is not None and isinstance(site_arg, ast.Call) and len(site_arg.args) <= len(h.parent_fn.params) and \
+         any(callee is h.parent_fn for callee, _ in cx.callees(site_arg, s['fn'])[0]) if s['fn'] is not None else \
+         (h.parent_fn is not None and isinstance(site_arg, ast.Call) and dotted(site_arg.func) == h.parent_fn.name):
+        closure = {p_: a_ for p_, a_ in zip(h.parent_fn.params, site_arg.args) if isinstance(a_, ast.Constant)}
+
+      def const_of(e):
+        if isinstance(e, ast.Constant):
+          return e
+        if isinstance(e, ast.Name) and e.id in closure:
+          return closure[e.id]
+        return None
       for c in ast.walk(h.node):
         if isinstance(c, ast.Call) and isinstance(c.func, ast.Name) and c.func.id == 'setattr' and len(c.args) == 3 and \
-           isinstance(c.args[1], ast.Constant) and c.args[1].value == flag and isinstance(c.args[2], ast.Constant) and \
-           c.args[2].value is val:
+           const_of(c.args[1]) is not None and const_of(c.args[1]).value == flag and const_of(c.args[2]) is not None and \
+           const_of(c.args[2]).value is val:
           okf = True
         if isinstance(c, ast.Assign) and any((dotted(t) or '').endswith('.' + flag) for t in c.targets) and \
            isinstance(c.value, ast.Constant) and c.value.value is val:
